@@ -520,13 +520,24 @@ def r_pickle(c):
                     "has no __getstate__ dropping the cache")
 
 
+def r_state(c):
+    """comparison must not depend on what was compared before: no memo / cache of
+    the comparer (keyed by id(), i.e. by addresses that are reused once objects
+    die) may outlive the comparison it was created for"""
+    from pta.rules.common import check_no_shared_state
+    check_no_shared_state(
+        c, "R04-STATE", ["pytato.equality", "pytato.array", "pytato.function", "pytato.loopy",
+                         "pytato.distributed.nodes"],
+        "the answer of == depends on which objects were compared earlier in the process "
+        "(an id()-keyed entry survives the objects it was made for)")
+
 SPEC = Spec(
     prop="C04",
     rules=[r_exhaustive, r_eq_field, r_pairing, r_memo_and_identity, r_hash_order,
-           r_pickle],
+           r_pickle, r_state],
     floors={"R04-EXHAUSTIVE": 23, "R04-EQ-FIELD": 100, "R04-HASH-SUBSET": 80,
             "R04-PAIRING": 80, "R04-PICKLE": 5, "R04-HASH-ORDER": 3, "R04-NEQ": 20,
-            "R04-MEMO-KEY": 2, "R04-HASH-IDENTITY": 1},
+            "R04-MEMO-KEY": 2, "R04-HASH-IDENTITY": 1, "R04-STATE": 5},
     explanation=(
         "Static (kind, field) enumeration over /repo/pytato: for every concrete "
         "node kind K the EqualityComparer handler the dispatcher would select is "
